@@ -69,7 +69,7 @@ REQUIRED = ["children_clean", "op:stage-compare", "seeds:distinct-hash-probes", 
             "stage:protoclusters", "stage:detection_results_json", "stage:candidate_clusters", "stage:regions",
             "stage:cds_annotations", "stage:ruleset_rules", "stage:areas_json", "stage:results_json", "stage:genbank", "stage:region_genbank",
             "tie:equal-location-protoclusters", "tie:equal-start-hits", "tie:cds-defined-by-several-domains",
-            "tie:several-rules", "shape:hybrid-of-equal-location-protoclusters", "shape:region-crosses-origin"]
+            "tie:several-rules", "tie:single-candidates-of-equal-location", "shape:hybrid-of-equal-location-protoclusters", "shape:region-crosses-origin"]
 
 REQUIRED_THOROUGH = ["seeds:at-least-32-distinct"]
 
@@ -279,6 +279,8 @@ def observed_ties(case, stages) -> dict:
             and len({loc_of.get(n) for n in c["protocluster_numbers"]}) < len(c["protocluster_numbers"]) for c in cands)
         clocs = [c["location"] for c in cands]
         facts["equal_location_candidates"] = len(set(clocs)) < len(clocs)
+        singles = [c["location"] for c in cands if c["kind"] == "single"]
+        facts["equal_location_single_candidates"] = len(set(singles)) < len(singles)
     regions = stages.get("regions")
     if isinstance(regions, list):
         facts["region_crosses_origin"] = any("join" in r["location"] or "{" in r["location"] for r in regions)
@@ -492,6 +494,7 @@ TIE_COUNTERS = [("equal_location_protoclusters", "tie:equal-location-protocluste
                 ("equal_score_overlapping_hits", "tie:equal-score-overlapping-hits"),
                 ("cds_defined_by_several_domains", "tie:cds-defined-by-several-domains"),
                 ("equal_location_candidates", "tie:equal-location-candidates"),
+                ("equal_location_single_candidates", "tie:single-candidates-of-equal-location"),
                 ("hybrid_with_equal_location_members", "shape:hybrid-of-equal-location-protoclusters"),
                 ("region_crosses_origin", "shape:region-crosses-origin")]
 
